@@ -16,7 +16,7 @@ Ltac unfold_all ::=
 
 (* ================================================================== kPathCover *)
 Definition is_node (i : input) := match origin i with ONode => true | _ => false end.
-Definition deviates_kPathCover (i : input) := is_node i || dev_cov i || dev_k_nonint i || dev_k_le0 i.
+Definition deviates_kPathCover (i : input) := dev_cov i || dev_expand i || dev_k_nonint i || dev_k_le0 i.
 Theorem validate_sound_kPathCover i : validate_kPathCover i = RaiseValueError -> in_domain_kPathCover i = false.
 Proof.
   intros H. destruct (in_domain_kPathCover i) eqn:D; [exfalso|reflexivity]. sound_script i.
@@ -24,24 +24,13 @@ Qed.
 Theorem validate_complete_kPathCover i :
   in_domain_kPathCover i = false -> deviates_kPathCover i = false -> validate_kPathCover i = RaiseValueError.
 Proof.
-  intros D V. unfold deviates_kPathCover, is_node in V. split_dev V. norm_hyps.
+  intros D V. unfold deviates_kPathCover in V. split_dev V. norm_hyps.
   assert (K : k_pos_int i = true) by (apply k_pos_from; unfold dev_k_nonint, dev_k_le0 in *; norm_hyps; assumption).
-  unfold_dom; unfold_all; destruct (origin i) eqn:O; bsimp; try reflexivity; try discriminate.
-  destruct (cons_wf i) eqn:W; [use_wf i | use_bad i]; unfold_dev; rw_goal; bsimp; fing.
+  complete_script i.
 Qed.
-Theorem accepts_domain_kPathCover i :
-  in_domain_kPathCover i = true -> origin i = OEdge -> validate_kPathCover i = Accept.
-Proof.
-  intros D OE. unfold_dom; unfold_all; rewrite OE in *; bsimp.
-  split_dom D; use_size; norm_hyps.
-  match goal with W : cons_wf i = true |- _ =>
-    assert (O' : origin i <> ONode) by congruence; destruct (wf_edge_facts i O' W) as [W1 W2] end.
-  use_k i. rewrite OE in *. rw_goal. bsimp. fing.
-Qed.
-(* DESIGN #4: cover_type="node" always dies with TypeError, also for documented inputs; k = 0 is accepted (unsolved) *)
-Theorem accepts_domain_kPathCover_refuted_node_mode :
-  exists i, in_domain_kPathCover i = true /\ has_live i = true /\ validate_kPathCover i = RaiseOther EType.
-Proof. exists (set_origin ex_dag ONode). vm_compute. auto. Qed.
+Theorem accepts_domain_kPathCover i : in_domain_kPathCover i = true -> validate_kPathCover i = Accept.
+Proof. intros D. accept_script i. Qed.
+(* DESIGN #17: k = 0 is accepted (the model is merely unsolved) *)
 Theorem validate_kPathCover_refuted_k0 :
   exists i, in_domain_kPathCover i = false /\ validate_kPathCover i = AcceptsButUnsolved.
 Proof. exists (set_k ex_dag (KInt 0)). vm_compute. auto. Qed.
